@@ -369,115 +369,36 @@ pub fn take_last_panic() -> Option<(String, String)> {
 // Padding types (vary size / alignment / heap ownership)
 // ---------------------------------------------------------------------------------------------
 
-pub trait Pad: Clone + 'static {
+/// The tail of the element. It decides size, alignment, heap ownership and - because the
+/// destructor hook lives here and not on `TokG` itself - whether the element type has drop glue at
+/// all (`mem::needs_drop`): a crate fast path for "plain data" types is only reachable with `NoDrop`.
+pub trait Pad: 'static {
     const NAME: &'static str;
     const HEAP: bool;
-    fn new() -> Self;
+    /// does the element run a destructor the ledger can see?
+    const DROP: bool;
+    fn new(id: u64, val: u32) -> Self;
+    fn set(&mut self, _id: u64, _val: u32) {}
 }
 
-impl Pad for () {
-    const NAME: &'static str = "tok24";
-    const HEAP: bool = false;
-    fn new() -> Self {}
-}
-
-#[derive(Clone, Copy)]
-#[repr(align(32))]
-pub struct Pad32(pub [u8; 40]);
-impl Pad for Pad32 {
-    const NAME: &'static str = "wide96a32";
-    const HEAP: bool = false;
-    fn new() -> Self {
-        Pad32([0xA5; 40])
-    }
-}
-
-impl Pad for Box<u32> {
-    const NAME: &'static str = "heaptok";
-    const HEAP: bool = true;
-    fn new() -> Self {
-        let _s = crate::alloc::Suspend::new();
-        Box::new(0xB0B0_B0B0)
-    }
-}
-
-// ---------------------------------------------------------------------------------------------
-// The element
-// ---------------------------------------------------------------------------------------------
-
+/// Destructor hook: a self-validating copy of (id, val) whose `Drop` reports to the ledger.
 #[repr(C)]
-pub struct TokG<P: Pad> {
+pub struct Hook {
     pub id: u64,
-    pub chk: u64,
+    pub hchk: u64,
     pub val: u32,
     pub _r: u32,
-    pub pad: P,
 }
 
-pub type Tok = TokG<()>;
-
-impl<P: Pad> TokG<P> {
-    pub fn new(val: u32) -> Self {
-        let id = ledger_new_id(val, 0);
-        TokG { id, chk: mix(id, val), val, _r: 0, pad: P::new() }
-    }
-
-    /// a token the harness keeps for itself (garbage images, comparison operands)
-    pub fn new_pinned(val: u32) -> Self {
-        let t = Self::new(val);
-        with_ledger(|l| {
-            let i = l.idx(t.id).unwrap();
-            l.recs[i].epoch = PINNED;
-            l.pinned += 1;
-        });
-        t
-    }
-
-    /// Validate and read (id, val). Every harness-side read of an element goes through here.
-    #[inline]
-    pub fn peek(&self, site: &'static str) -> (u64, u32) {
-        self.validate(site);
-        (self.id, self.val)
-    }
-
-    #[inline]
-    pub fn set_val(&mut self, val: u32) {
-        self.validate("set_val");
-        self.val = val;
-        self.chk = mix(self.id, val);
-        with_ledger(|l| {
-            if let Some(i) = l.idx(self.id) {
-                l.recs[i].val = val;
-            }
-        });
-    }
-
-    /// true if the bytes look like a token the ledger knows and that is live
-    #[inline]
-    pub fn validate(&self, site: &'static str) -> bool {
-        let (id, val, chk) = (self.id, self.val, self.chk);
-        with_ledger(|l| {
-            l.touches += 1;
-            l.digest = dmix(l.digest, site_tag(site), id ^ ((val as u64) << 40));
-            let i = match l.idx(id) {
-                Some(i) if chk == mix(id, val) => i,
-                _ => {
-                    l.events.push(Ev::GarbageTouched(id, chk, site));
-                    return false;
-                }
-            };
-            if l.recs[i].st == St::Dead {
-                l.events.push(Ev::StaleTouched(id, site));
-                return false;
-            }
-            true
-        })
+impl Hook {
+    fn make(id: u64, val: u32) -> Hook {
+        Hook { id, hchk: mix(id, val) ^ 0x5555_AAAA_5555_AAAA, val, _r: 0 }
     }
 }
 
-impl<P: Pad> Drop for TokG<P> {
+impl Drop for Hook {
     fn drop(&mut self) {
-        let (id, val, chk) = (self.id, self.val, self.chk);
+        let (id, val, chk) = (self.id, self.val, self.hchk ^ 0x5555_AAAA_5555_AAAA);
         let ok = with_ledger(|l| {
             l.touches += 1;
             l.digest = dmix(l.digest, 0xD0, id ^ ((val as u64) << 40));
@@ -516,12 +437,144 @@ impl<P: Pad> Drop for TokG<P> {
     }
 }
 
+impl Pad for Hook {
+    const NAME: &'static str = "tok48";
+    const HEAP: bool = false;
+    const DROP: bool = true;
+    fn new(id: u64, val: u32) -> Self {
+        Hook::make(id, val)
+    }
+    fn set(&mut self, id: u64, val: u32) {
+        self.id = id;
+        self.val = val;
+        self.hchk = mix(id, val) ^ 0x5555_AAAA_5555_AAAA;
+    }
+}
+
+/// no destructor at all: `mem::needs_drop::<TokG<NoDrop>>()` is false. The ledger cannot see the
+/// end of such an element, so liveness/leak oracles are off for it; identity oracles are not.
+impl Pad for () {
+    const NAME: &'static str = "nodrop24";
+    const HEAP: bool = false;
+    const DROP: bool = false;
+    fn new(_id: u64, _val: u32) -> Self {}
+}
+
+#[repr(C, align(32))]
+pub struct Pad32 {
+    pub hook: Hook,
+    pub fill: [u8; 40],
+}
+impl Pad for Pad32 {
+    const NAME: &'static str = "wide96a32";
+    const HEAP: bool = false;
+    const DROP: bool = true;
+    fn new(id: u64, val: u32) -> Self {
+        Pad32 { hook: Hook::make(id, val), fill: [0xA5; 40] }
+    }
+    fn set(&mut self, id: u64, val: u32) {
+        self.hook.set(id, val);
+    }
+}
+
+pub struct HeapPad {
+    pub hook: Hook,
+    pub heap: Box<u32>,
+}
+impl Pad for HeapPad {
+    const NAME: &'static str = "heaptok";
+    const HEAP: bool = true;
+    const DROP: bool = true;
+    fn new(id: u64, val: u32) -> Self {
+        let _s = crate::alloc::Suspend::new();
+        HeapPad { hook: Hook::make(id, val), heap: Box::new(0xB0B0_B0B0) }
+    }
+    fn set(&mut self, id: u64, val: u32) {
+        self.hook.set(id, val);
+    }
+}
+
+// ---------------------------------------------------------------------------------------------
+// The element
+// ---------------------------------------------------------------------------------------------
+
+#[repr(C)]
+pub struct TokG<P: Pad> {
+    pub id: u64,
+    pub chk: u64,
+    pub val: u32,
+    pub _r: u32,
+    pub pad: P,
+}
+
+pub type Tok = TokG<Hook>;
+
+impl<P: Pad> TokG<P> {
+    pub fn new(val: u32) -> Self {
+        let id = ledger_new_id(val, 0);
+        TokG { id, chk: mix(id, val), val, _r: 0, pad: P::new(id, val) }
+    }
+
+    /// a token the harness keeps for itself (garbage images, comparison operands)
+    pub fn new_pinned(val: u32) -> Self {
+        let t = Self::new(val);
+        with_ledger(|l| {
+            let i = l.idx(t.id).unwrap();
+            l.recs[i].epoch = PINNED;
+            l.pinned += 1;
+        });
+        t
+    }
+
+    /// Validate and read (id, val). Every harness-side read of an element goes through here.
+    #[inline]
+    pub fn peek(&self, site: &'static str) -> (u64, u32) {
+        self.validate(site);
+        (self.id, self.val)
+    }
+
+    #[inline]
+    pub fn set_val(&mut self, val: u32) {
+        self.validate("set_val");
+        self.val = val;
+        self.chk = mix(self.id, val);
+        self.pad.set(self.id, val);
+        with_ledger(|l| {
+            if let Some(i) = l.idx(self.id) {
+                l.recs[i].val = val;
+            }
+        });
+    }
+
+    /// true if the bytes look like a token the ledger knows and that is live
+    #[inline]
+    pub fn validate(&self, site: &'static str) -> bool {
+        let (id, val, chk) = (self.id, self.val, self.chk);
+        with_ledger(|l| {
+            l.touches += 1;
+            l.digest = dmix(l.digest, site_tag(site), id ^ ((val as u64) << 40));
+            let i = match l.idx(id) {
+                Some(i) if chk == mix(id, val) => i,
+                _ => {
+                    l.events.push(Ev::GarbageTouched(id, chk, site));
+                    return false;
+                }
+            };
+            if l.recs[i].st == St::Dead {
+                l.events.push(Ev::StaleTouched(id, site));
+                return false;
+            }
+            true
+        })
+    }
+}
+
 impl<P: Pad> Clone for TokG<P> {
     fn clone(&self) -> Self {
         self.validate("clone");
         fp_hit(FpKind::Clone);
         let id = ledger_new_id(self.val, self.id);
-        TokG { id, chk: mix(id, self.val), val: self.val, _r: 0, pad: self.pad.clone() }
+        TokG { id, chk: mix(id, self.val), val: self.val, _r: 0, pad: P::new(id, self.val) }
     }
 }
 
